@@ -413,3 +413,11 @@ package queue
 //@     invariant [backoff-after-fail]    lastStatus == Fail && lastDelayBefore == 0 ==> sleepDelay == lastBackoff
 //@     invariant [delay-requested]       lastStatus == Fail && lastDelayBefore != 0 ==> sleepDelay == lastDelayBefore
 //@     invariant [failed-task-stays]     lastStatus == Fail || lastStatus == Repeat ==> nMut == nMutAtHandler
+
+// Ghost log of worker starts (C03: one worker per queue; C17: every queue stops with the set).
+//@ ghost nQueueStart int
+//@ ghost startedQueue map[int]*TaskQueue
+//@ trusted func (*TaskQueue).Start
+//@   modifies nQueueStart, startedQueue
+//@   ghostset nQueueStart := nQueueStart + 1
+//@   ghostset startedQueue[nQueueStart] := q
